@@ -31,6 +31,8 @@ pub struct TreeCfg {
     pub invalid: usize,
     /// max ms between blocks
     pub ts_step_max: u64,
+    /// min ms between blocks (default 0: steps are 1..=ts_step_max)
+    pub ts_step_min: u64,
     /// per mille chance to skip a committable transaction (keeps proposals uncommitted longer)
     pub commit_skip_pm: u64,
     /// upper bound on committed (non-cellbase) transactions per generated block (sessions with a
@@ -54,6 +56,7 @@ impl Default for TreeCfg {
             junk_proposals: 2,
             invalid: 2,
             ts_step_max: 20_000,
+            ts_step_min: 0,
             commit_skip_pm: 150,
             max_commits: usize::MAX,
             max_commit_bytes: usize::MAX,
@@ -500,7 +503,7 @@ impl TreeGen {
         proposals.retain(|p| seen.insert(p.clone()));
         // timestamp
         let median = self.rc.median_time(parent);
-        let step = 1 + self.rng.below(self.cfg.ts_step_max);
+        let step = self.cfg.ts_step_min + 1 + self.rng.below(self.cfg.ts_step_max.max(self.cfg.ts_step_min + 1) - self.cfg.ts_step_min);
         let ts = (prec.block.timestamp() + step).max(median + 1);
         // epoch of the child (needed for uncle choice)
         let epoch = {
